@@ -108,3 +108,437 @@ def c19_margin_additive():
                             bad.append(n.lineno)
         out.append(rec("margin-additive.%s" % cls, not bad, "finish_margin used non-additively at lines %s" % bad))
     return out
+
+
+# ---------------------------------------------------------------------------------- call graph / write sets
+MUT = {"append", "extend", "insert", "pop", "remove", "add", "update", "clear", "sort", "reverse"}
+
+
+def _functions():
+    """(cls or None, name) -> FunctionDef for all model functions"""
+    out = {}
+    s = src()
+    for c, ci in s.classes.items():
+        if ci.is_enum:
+            continue
+        for m, fn in ci.methods.items():
+            out[(c, m)] = fn
+    for f, (mod, fn) in s.functions.items():
+        out[(None, f)] = fn
+    return out
+
+
+def direct_writes(fn):
+    """attribute names written (assigned, deleted or mutated in place) directly in fn, with line numbers"""
+    w = {}
+    for n in ast.walk(fn):
+        if isinstance(n, ast.Attribute) and isinstance(n.ctx, (ast.Store, ast.Del)):
+            w.setdefault(n.attr, []).append(n.lineno)
+        if isinstance(n, ast.Call) and isinstance(n.func, ast.Attribute) and n.func.attr in MUT \
+                and isinstance(n.func.value, ast.Attribute):
+            w.setdefault(n.func.value.attr, []).append(n.lineno)
+        if isinstance(n, ast.Subscript) and isinstance(n.ctx, ast.Store) and isinstance(n.value, ast.Attribute):
+            w.setdefault(n.value.attr, []).append(n.lineno)
+    return w
+
+
+def direct_reads(fn):
+    r = set()
+    for n in ast.walk(fn):
+        if isinstance(n, ast.Attribute) and isinstance(n.ctx, ast.Load):
+            r.add(n.attr)
+    return r
+
+
+def callees(fn):
+    """method / function names called in fn (resolved by name over all model classes: conservative)"""
+    out = set()
+    for n in ast.walk(fn):
+        if isinstance(n, ast.Call):
+            if isinstance(n.func, ast.Attribute):
+                out.add(n.func.attr)
+            elif isinstance(n.func, ast.Name):
+                out.add(n.func.id)
+    return out
+
+
+def reachable(roots, stop=()):
+    """all (cls, name) reachable from the root functions by name resolution"""
+    fns = _functions()
+    by_name = {}
+    for (c, m), fn in fns.items():
+        by_name.setdefault(m, []).append((c, m))
+        if c is not None and m.startswith("__") and not m.endswith("__"):
+            by_name.setdefault(m, [])
+    seen = set()
+    todo = list(roots)
+    while todo:
+        k = todo.pop()
+        if k in seen or k not in fns:
+            continue
+        seen.add(k)
+        for name in callees(fns[k]):
+            if name in stop or name.startswith(("plot_", "create_", "draw_", "print_", "get_networkx", "get_node_and")):
+                continue
+            if name in src().classes and (name, "__init__") in fns:
+                todo.append((name, "__init__"))
+            for k2 in by_name.get(name, []):
+                todo.append(k2)
+    return seen
+
+
+def write_set(roots, stop=()):
+    fns = _functions()
+    ws = {}
+    for k in reachable(roots, stop):
+        for a, lines in direct_writes(fns[k]).items():
+            ws.setdefault(a, []).append("%s.%s:%s" % (k[0] or "", k[1], lines[0]))
+    return ws
+
+
+# ---------------------------------------------------------------------------------- C09
+def c09_identity_scan():
+    """C09(b): no `is`/`is not` between values that are not None/True/False/enum members, no id()/hash() in the model"""
+    hits = []
+    enums = {c for c, ci in src().classes.items() if ci.is_enum}
+    for mod, tree in src().modules.items():
+        for n in ast.walk(tree):
+            if isinstance(n, ast.Compare):
+                operands = [n.left] + list(n.comparators)
+                for i, op in enumerate(n.ops):
+                    if isinstance(op, (ast.Is, ast.IsNot)):
+                        a, b = operands[i], operands[i + 1]
+
+                        def singleton(x):
+                            if isinstance(x, ast.Constant) and (x.value is None or isinstance(x.value, bool)):
+                                return True
+                            return isinstance(x, ast.Attribute) and isinstance(x.value, ast.Name) and x.value.id in enums
+                        if not (singleton(a) or singleton(b)):
+                            hits.append("%s.py:%d `%s`" % (mod, n.lineno, ast.unparse(n)[:60]))
+            if isinstance(n, ast.Call) and isinstance(n.func, ast.Name) and n.func.id in ("id", "hash"):
+                hits.append("%s.py:%d %s()" % (mod, n.lineno, n.func.id))
+    return [rec("C09.no-identity-dependence", not hits, "; ".join(hits))]
+
+
+def c09_mutable_defaults():
+    """C09(d)/C18: a parameter with a mutable literal default that is stored in an attribute without copying must not be
+    mutated in place anywhere in the model (state would leak between calls and between projects)"""
+    fns = _functions()
+    mutated = {}
+    for k, fn in fns.items():
+        for n in ast.walk(fn):
+            if isinstance(n, ast.Call) and isinstance(n.func, ast.Attribute) and n.func.attr in MUT \
+                    and isinstance(n.func.value, ast.Attribute):
+                mutated.setdefault(n.func.value.attr, []).append("%s.%s:%d" % (k[0] or "", k[1], n.lineno))
+    out = []
+    for k, fn in fns.items():
+        a = fn.args
+        params = [x.arg for x in a.args]
+        defaults = dict(zip(params[len(params) - len(a.defaults):], a.defaults))
+        for p, d in defaults.items():
+            if not isinstance(d, (ast.List, ast.Dict, ast.Set)):
+                continue
+            stored = []
+            for n in ast.walk(fn):
+                if isinstance(n, ast.Assign) and len(n.targets) == 1 and isinstance(n.targets[0], ast.Attribute):
+                    v = n.value
+                    direct = isinstance(v, ast.Name) and v.id == p
+                    cond = isinstance(v, ast.IfExp) and ((isinstance(v.body, ast.Name) and v.body.id == p) or
+                                                         (isinstance(v.orelse, ast.Name) and v.orelse.id == p))
+                    if direct or cond:
+                        stored.append(n.targets[0].attr)
+            bad = [(attr, mutated[attr]) for attr in stored if attr in mutated]
+            out.append(rec("C09.default-argument-not-shared.%s.%s(%s)" % (k[0] or "", k[1], p), not bad,
+                           "default %s of %s is stored in %s and mutated in place at %s" % (
+                               ast.unparse(d), p, [b[0] for b in bad], [b[1][:3] for b in bad]), fn.lineno))
+    return out
+
+
+def c09_reset_fields():
+    """C09(c): every attribute written on the simulation path is reset by initialize(True, True) or overwritten from the
+    arguments of simulate before the main loop"""
+    ws = write_set([("BaseProject", "simulate")], stop=("initialize",))
+    rs = write_set([("BaseProject", "initialize")])
+    s = src()
+    _, sim = s.get_function("BaseProject.simulate")
+    from_args = set()
+    for st in sim.body:
+        if isinstance(st, ast.While):
+            break
+        if isinstance(st, ast.Assign) and isinstance(st.targets[0], ast.Attribute):
+            from_args.add(st.targets[0].attr)
+    out = []
+    for a in sorted(ws):
+        ok = a in rs or a in from_args
+        out.append(rec("C09.reset.%s" % a, ok, "attribute `%s` is written during simulate (%s) but not reset by initialize(True, True) "
+                                              "nor assigned from the arguments" % (a, ws[a][:3])))
+    return out
+
+
+# ---------------------------------------------------------------------------------- C15
+def c15_no_loop_carried_locals():
+    """C15(1): the main loop of simulate carries no state in local variables (everything lives in attributes)"""
+    s = src()
+    _, sim = s.get_function("BaseProject.simulate")
+    loop = [n for n in sim.body if isinstance(n, ast.While)][0]
+    assigned = set()
+    comp_bound = set()
+    for n in ast.walk(loop):
+        if isinstance(n, (ast.ListComp, ast.GeneratorExp, ast.SetComp, ast.DictComp)):
+            for g in n.generators:
+                for x in ast.walk(g.target):
+                    if isinstance(x, ast.Name):
+                        comp_bound.add(id(x))
+                        comp_bound.add(x.id)
+        if isinstance(n, ast.Lambda):
+            for x in n.args.args:
+                comp_bound.add(x.arg)
+    for n in ast.walk(loop):
+        if isinstance(n, ast.Name) and isinstance(n.ctx, ast.Store) and n.id not in comp_bound:
+            assigned.add(n.id)
+    problems = []
+
+    def loads(node):
+        return [x for x in ast.walk(node) if isinstance(x, ast.Name) and isinstance(x.ctx, ast.Load) and x.id in assigned]
+
+    def stores(node):
+        return {x.id for x in ast.walk(node) if isinstance(x, ast.Name) and isinstance(x.ctx, ast.Store)}
+
+    def walk(stmts, defined):
+        for st in stmts:
+            if isinstance(st, ast.If):
+                for x in loads(st.test):
+                    if x.id not in defined:
+                        problems.append((x.id, x.lineno))
+                d1 = walk(st.body, set(defined))
+                d2 = walk(st.orelse, set(defined))
+                defined |= (d1 & d2)
+            elif isinstance(st, (ast.For, ast.While)):
+                walk(st.body, set(defined) | stores(st.target) if isinstance(st, ast.For) else set(defined))
+            else:
+                if isinstance(st, ast.Assign):
+                    for x in loads(st.value):
+                        if x.id not in defined:
+                            problems.append((x.id, x.lineno))
+                    defined |= stores(st)
+                else:
+                    for x in loads(st):
+                        if x.id not in defined:
+                            problems.append((x.id, x.lineno))
+                    defined |= stores(st)
+        return defined
+    walk(loop.body, set())
+    return [rec("C15.no-loop-carried-locals", not problems,
+                "local variables read in the main loop before being assigned in the same iteration: %s" % problems)]
+
+
+# ---------------------------------------------------------------------------------- C17
+def c17_structure_not_in_frame():
+    """C17(b,c): simulate (and everything it calls) never writes the dependency / workplace link structure, so an exception
+    inside the inner run cannot leave it half-edited; backward_simulate's own edits are undone in its finally block"""
+    ws = write_set([("BaseProject", "simulate")])
+    structure = ["input_task_list", "output_task_list", "task_list", "input_workplace_list", "output_workplace_list",
+                 "dummy_input_task_list", "dummy_output_task_list"]
+    out = []
+    for a in structure:
+        out.append(rec("C17.simulate-does-not-write.%s" % a, a not in ws, "written at %s" % ws.get(a)))
+    # the finally block restores: reverse_dependencies twice, helper tasks removed
+    s = src()
+    _, bw = s.get_function("BaseProject.backward_simulate")
+    tr = [n for n in ast.walk(bw) if isinstance(n, ast.Try)]
+    ok = bool(tr)
+    details = ""
+    if ok:
+        fin = tr[0].finalbody
+        fin_calls = [x.func.attr for n in fin for x in ast.walk(n) if isinstance(x, ast.Call) and isinstance(x.func, ast.Attribute)]
+        pre_calls = []
+        for st in bw.body:
+            if st is tr[0]:
+                break
+            pre_calls += [x.func.attr for x in ast.walk(st) if isinstance(x, ast.Call) and isinstance(x.func, ast.Attribute)]
+        ok = fin_calls.count("reverse_dependencies") == pre_calls.count("reverse_dependencies") == 2 and "remove" in fin_calls
+        details = "before try: %s; finally: %s" % (pre_calls, fin_calls)
+    out.append(rec("C17.finally-restores-structure", ok, details))
+    return out
+
+
+# ---------------------------------------------------------------------------------- C08
+def c08_log_table():
+    """C08: every per-step log of the schema is appended by a record/add_labor_cost method of its class and handled by
+    initialize(log_info), reverse_log_information, remove_absence_time_list and insert_absence_time_list"""
+    from contracts.schema import log_table
+    fns = _functions()
+    out = []
+    for cls, attr in log_table():
+        def writes_in(pred):
+            hits = []
+            for (c, m), fn in fns.items():
+                if c == cls and pred(m) and attr in direct_writes(fn):
+                    hits.append(m)
+            return hits
+        owner = {("BaseWorker", "cost_list"): "BaseTeam", ("BaseFacility", "cost_list"): "BaseWorkplace"}.get((cls, attr))
+        if owner:
+            # members' cost entries are appended by the add_labor_cost of the owning team / workplace
+            hits = [m for (c, m), fn in fns.items() if c == owner and m == "add_labor_cost" and attr in direct_writes(fn)]
+            out.append(rec("C08.log-table.%s.%s.append" % (cls, attr), bool(hits), "%s.add_labor_cost does not append to member cost_list" % owner))
+            need = {}
+        elif cls == "BaseProject":
+            # project.cost_list: appended in simulate, reset in initialize, reversed, edited by the absence functions
+            need = {"append": lambda m: m == "simulate"}
+        else:
+            need = {"append": lambda m: m.startswith("record") or m == "add_labor_cost"}
+        need.update({"initialize": lambda m: m == "initialize", "reverse": lambda m: m == "reverse_log_information",
+                     "remove_absence": lambda m: m == "remove_absence_time_list", "insert_absence": lambda m: m == "insert_absence_time_list"})
+        for what, pred in need.items():
+            hits = writes_in(pred)
+            out.append(rec("C08.log-table.%s.%s.%s" % (cls, attr, what), bool(hits), "no %s function of %s writes %s" % (what, cls, attr)))
+    return out
+
+
+# ---------------------------------------------------------------------------------- C16 (JSON save / load)
+def _exported(cls):
+    """key -> (expression source, attributes of self read) for C.export_dict_json_data, following super()"""
+    s = src()
+    out = {}
+    for c in reversed(s.mro(cls)):
+        ci = s.classes[c]
+        fn = ci.methods.get("export_dict_json_data")
+        if fn is None:
+            continue
+        for n in ast.walk(fn):
+            if isinstance(n, ast.Call) and isinstance(n.func, ast.Attribute) and n.func.attr == "update":
+                for kw in n.keywords:
+                    if kw.arg:
+                        out[kw.arg] = kw.value
+            if isinstance(n, ast.Assign) and isinstance(n.targets[0], ast.Subscript) \
+                    and isinstance(n.targets[0].slice, ast.Constant):
+                out[n.targets[0].slice.value] = n.value
+    return out
+
+
+def _self_attrs(node):
+    return {x.attr for x in ast.walk(node) if isinstance(x, ast.Attribute) and isinstance(x.value, ast.Name) and x.value.id == "self"}
+
+
+def _init_assigned(cls):
+    """attributes definitely assigned by __init__ (own and inherited through super().__init__)"""
+    s = src()
+    out = set()
+    for c in s.mro(cls):
+        fn = s.classes[c].methods.get("__init__")
+        if fn is None:
+            continue
+
+        def walk(stmts):
+            d = set()
+            for st in stmts:
+                if isinstance(st, ast.If):
+                    d |= (walk(st.body) & walk(st.orelse))
+                elif isinstance(st, ast.Assign):
+                    for t in st.targets:
+                        if isinstance(t, ast.Attribute) and isinstance(t.value, ast.Name) and t.value.id == "self":
+                            d.add(t.attr)
+            return d
+        out |= walk(fn.body)
+        calls_super = any(isinstance(x, ast.Call) and isinstance(x.func, ast.Attribute) and x.func.attr == "__init__"
+                          for x in ast.walk(fn))
+        if not calls_super:
+            break
+    return out
+
+
+def _ctor_param_attr(cls):
+    """constructor parameter -> attribute it is stored in (by `self.attr = ... param ...`)"""
+    s = src()
+    out = {}
+    for c in s.mro(cls):
+        fn = s.classes[c].methods.get("__init__")
+        if fn is None:
+            continue
+        params = [a.arg for a in fn.args.args[1:]]
+        for n in ast.walk(fn):
+            if isinstance(n, ast.Assign) and isinstance(n.targets[0], ast.Attribute) and isinstance(n.targets[0].value, ast.Name) \
+                    and n.targets[0].value.id == "self":
+                for x in ast.walk(n.value):
+                    if isinstance(x, ast.Name) and x.id in params:
+                        out.setdefault(x.id, n.targets[0].attr)
+    return out
+
+
+def _ctor_calls():
+    """constructor calls inside read_* functions: class -> list of {param: json key or None}"""
+    s = src()
+    out = {}
+    for (c, m), fn in _functions().items():
+        if not (m.startswith("read_") or m.startswith("append_project_log")):
+            continue
+        for n in ast.walk(fn):
+            if isinstance(n, ast.Call) and isinstance(n.func, ast.Name) and n.func.id in s.classes and not s.classes[n.func.id].is_enum:
+                kws = {}
+                for kw in n.keywords:
+                    keys = [x.slice.value for x in ast.walk(kw.value) if isinstance(x, ast.Subscript) and isinstance(x.slice, ast.Constant)
+                            and isinstance(x.slice.value, str)]
+                    kws[kw.arg] = keys[0] if keys else None
+                out.setdefault(n.func.id, []).append(("%s.%s:%d" % (c, m, n.lineno), kws))
+    return out
+
+
+SIM_CLASSES = ["BaseTask", "BaseSubProjectTask", "BaseComponent", "BaseWorker", "BaseFacility", "BaseTeam", "BaseWorkplace"]
+
+
+def c16_definite_assignment():
+    """C16(d): writing never fails: every attribute read by export_dict_json_data is assigned by __init__ on all paths"""
+    out = []
+    for cls in SIM_CLASSES + ["BaseWorkflow", "BaseProduct", "BaseOrganization"]:
+        exp = _exported(cls)
+        read = set()
+        for v in exp.values():
+            read |= _self_attrs(v)
+        missing = sorted(read - _init_assigned(cls) - {"__class__"})
+        out.append(rec("C16.export-reads-only-initialised-attributes.%s" % cls, not missing,
+                       "export_dict_json_data reads %s which __init__ does not assign (AttributeError when writing)" % missing))
+    return out
+
+
+def c16_read_keys_exported():
+    """C16(a): every json key used when loading is written when saving (no KeyError on load)"""
+    out = []
+    for cls, calls in _ctor_calls().items():
+        exp = set(_exported(cls))
+        for where, kws in calls:
+            missing = sorted(k for k in kws.values() if k is not None and k not in exp)
+            out.append(rec("C16.load-reads-only-saved-keys.%s@%s" % (cls, where.split(":")[0]), not missing,
+                           "%s reads keys %s that export_dict_json_data of %s does not write" % (where, missing, cls)))
+    return out
+
+
+def c16_format_complete():
+    """C16(c): every constructor parameter whose attribute is read on the simulation path is saved and passed back on load"""
+    fns = _functions()
+    sim_reads = set()
+    for k in reachable([("BaseProject", "simulate")]):
+        sim_reads |= direct_reads(fns[k])
+    calls = _ctor_calls()
+    out = []
+    for cls in SIM_CLASSES:
+        pa = _ctor_param_attr(cls)
+        exp = _exported(cls)
+        exported_attrs = {}
+        for key, v in exp.items():
+            for a in _self_attrs(v):
+                exported_attrs.setdefault(a, key)
+        loaded = set()
+        for where, kws in calls.get(cls, []):
+            loaded |= {p for p, k in kws.items() if k is not None}
+        for p, attr in sorted(pa.items()):
+            if attr not in sim_reads:
+                continue
+            ok = attr in exported_attrs and p in loaded
+            why = []
+            if attr not in exported_attrs:
+                why.append("not written by export_dict_json_data")
+            if p not in loaded:
+                why.append("not passed to the constructor on load")
+            out.append(rec("C16.saved-format-complete.%s.%s" % (cls, p), ok,
+                           "constructor parameter %s (attribute %s, read during simulation) is %s" % (p, attr, " and ".join(why))))
+    return out
